@@ -1110,8 +1110,10 @@ def _rel_addr(n):
 
 NP, NS = 2, 4  # primitive / supercell atoms of the model scenarios
 _P2S = [0, 2]
-_S2P = [0, 0, 2, 2]
-_S2PP = [0, 0, 1, 1]
+# images of a primitive atom are deliberately NOT consecutive in supercell order (interleaved species with a
+# centring primitive matrix give such maps), and p2s is not a prefix
+_S2P = [0, 2, 0, 2]
+_S2PP = [0, 1, 0, 1]
 _MULTI = []
 for _k in range(NS * NP):
     _MULTI += [2 if _k % 3 == 0 else 1, 0]
@@ -1181,6 +1183,28 @@ SCENARIOS = {
 }
 
 DEFAULT_INT = 2
+
+# sites that scan the supercell for the images of a primitive atom / address fc rows through an index map:
+# (function, ordinal) -> (kind, name of the fc block, name of the s2p-like scenario array, of the p2s-like one)
+SCANS = {
+    ("ddm_get_derivative_dynmat_at_q", 0): ("pair", "fc", "s2p_map", "p2s_map"),
+    ("dym_get_dynamical_matrix_at_q", 0): ("pair", "fc", "s2p_map", "p2s_map"),
+    ("dym_dynamical_matrices_with_dd_openmp_over_qpoints", 0): ("allpairs", "fc", "s2p_map", "p2s_map"),
+    ("dym_dynamical_matrices_with_dd_openmp_over_qpoints", 1): ("allpairs", "fc", "s2p_map", "p2s_map"),
+    ("dym_transform_dynmat_to_fc", 0): ("rowwrite", "fc", "s2pp_map", "fc_index_map"),
+}
+
+
+def scan_descriptor(site, locs):
+    key = (site["func"], site["ordinal"])
+    if key not in SCANS:
+        return dict(kind="none", np=0, ns=0, s2p=[], p2s=[], fcloc=[])
+    kind, blk, s2pn, p2sn = SCANS[key]
+    arrays = SCENARIOS[site["func"]]["arrays"]
+    ncell = arrays[blk][1]
+    idx = {nm: i + 1 for i, nm in enumerate(locs)}
+    fcloc = [idx.get("%s@[%d]" % (blk, off), 0) for off in range(ncell)]
+    return dict(kind=kind, np=NP, ns=NS, s2p=list(arrays[s2pn][2]), p2s=list(arrays[p2sn][2]), fcloc=fcloc)
 
 
 def run_site(prog, site):
@@ -1268,7 +1292,8 @@ def build_models(repo):
                            func=s["func"], line=s["line"], pragma=it.site_info["pragma"],
                            clauses=it.site_info["clauses"], parallel=it.site_info["parallel"],
                            loopvar=it.site_info["loopvar"], iters=[i for i, _ in it.iterations],
-                           locs=list(locs), cls=cls, acc=acc, oob=it.oob, steps=it.steps))
+                           locs=list(locs), cls=cls, acc=acc, oob=it.oob, steps=it.steps,
+                           scan=scan_descriptor(s, list(locs))))
     return models, prog
 
 
